@@ -76,10 +76,10 @@ func h(f func(fr *frame, args []value) value) externalFn {
 	return func(fr *frame, args []value) (value, bool) { return f(fr, args), true }
 }
 
-var externals map[string]externalFn
+var externals = map[string]externalFn{}
 
 func init() {
-	externals = map[string]externalFn{
+	for k, v := range map[string]externalFn{
 		// --- sync
 		"(*sync.Mutex).Lock":      h(extMutexLock),
 		"(*sync.Mutex).Unlock":    h(extMutexUnlock),
@@ -286,6 +286,8 @@ func init() {
 
 		// --- reflectlite bits used by errors/context
 		"internal/reflectlite.TypeOf": h(func(fr *frame, a []value) value { return iface{} }),
+	} {
+		externals[k] = v
 	}
 }
 
